@@ -1233,13 +1233,13 @@ func feedText(c *C, r *Root, doc []byte, limit int, discard bool, note string) {
 			c.Check(classes[0] != "ok", fmt.Sprintf("prototext.Unmarshal accepts a document nested %d deep through known fields with RecursionLimit %d", known, effLimit), in, "")
 		} else if braces > effLimit {
 			c.Hist("text-oracle:too-deep-skipped")
-			// the excess nesting lies in values that are skipped (unknown or reserved names): DESIGN finding 10
+			// the excess nesting lies in values that are skipped (unknown or reserved names): skipMessageValue counts
+			// them since /repo 5d21ab7 (DESIGN finding 10, fixed); a regression is reported under the old signature
 			checkSig(c, classes[0] != "ok", fmt.Sprintf("prototext.Unmarshal accepts a document nested %d deep (inside skipped values) with RecursionLimit %d", braces, effLimit), in, sigSkip10)
 		}
 		if install(c, r) {
 			if tree, _, terr := textTree(doc, true); terr == nil && len(tree) < 400000 {
-				// VERIF_TEXT_SKIP_LIMITED=1: the model of the tree after fixes/prototext-skip-depth.diff
-				ans := c.Ask("fromtext 0 %d %d %d %s", effLimit, b2i(discard), b2i(os.Getenv("VERIF_TEXT_SKIP_LIMITED") == "1"), tree)
+				ans := c.Ask("fromtext 0 %d %d %s", effLimit, b2i(discard), tree)
 				switch {
 				case ans == "err delegated":
 					c.Hist("text-model:delegated")
@@ -1511,7 +1511,7 @@ func cycleThrough(md protoreflect.MessageDescriptor, first func(fd protoreflect.
 	return nil
 }
 
-// ---------------------------------------------------------------- finding 10: the child process
+// ---------------------------------------------------------------- regression of finding 10 (fixed in /repo 5d21ab7): the child process
 
 func child(kind string) {
 	switch kind {
@@ -1567,7 +1567,9 @@ func runChild(kind string, n, stackMB int) (string, string) {
 	return "", fmt.Sprintf("child died (%v): %s", err, short(first, 200))
 }
 
-func finding10(c *C, rs []*Root) {
+// skipRegression replays the old witnesses of finding 10: skipped values nested far beyond the limit must be rejected
+// with the recursion-depth error, in process and (very deep, would overflow the stack if walked) in a child process
+func skipRegression(c *C, rs []*Root) {
 	r := rootByName(rs, "pb2.Scalars")
 	if r == nil {
 		return
@@ -1578,7 +1580,7 @@ func finding10(c *C, rs []*Root) {
 	// child process with a stack cap: the crash of the child is the failure
 	n, mb := 3000000, 128
 	if c.Thorough() {
-		n, mb = 12000000, 0 // the default 1 GB stack limit: 24 MB of `a{` overflow it
+		n, mb = 12000000, 0 // the default 1 GB stack limit: 24 MB of `a{` overflowed it before the repair
 	}
 	res, died := runChild("textskip", n, mb)
 	in := c26input{Format: "text", Type: "pb2.Scalars", Limit: 5, Discard: true,
@@ -1666,7 +1668,7 @@ func runC26(c *C) {
 		replayC26(c, rs, in)
 	}
 	intsStream(c)
-	finding10(c, rs)
+	skipRegression(c, rs)
 	depthStreams(c, rs)
 	n := c.N(13, 1200)
 	limits := []int{0, 0, 0, 1, 2, 3, 4}
